@@ -79,6 +79,7 @@ PROPS.update({
 })
 PROPS['C12']['bounded'] = [{'args': ['tree-ops'], 'classes': None}]
 
+PROPS['C13']['bounded'].append({'args': ['regions'], 'classes': ['size-hint']})
 PROPS['C13'].update({
     'level': 'other',
     'units': ['tree_iter'],
@@ -95,6 +96,22 @@ PROPS['C13'].update({
         'assume_specification for VecDeque::from([T; N]) (view equals the array); vstd specifications of Vec / VecDeque',
         'the remaining-sequence theorems are stated for every height map h with ranked_down(arena, h) (exists for every wf tree, part of wf)',
         'depth counters do not overflow: depth + height < usize::MAX (invariant dfs_inv)',
+    ],
+})
+
+PROPS['C18'].update({
+    'level': 'other',
+    'units': ['arch'],
+    'technique': 'Verus contracts on the extracted text of src/distill/arch.rs (arch_ok invariant, accepted <=> compatible, Err => unchanged) + bounded replay (bc arch) for extract_range, distillation of accepted architectures and read_layers',
+    'level_text': ('Mixed. PROVED (Verus, all call sequences by induction over the invariant arch_ok): every Architecture builder method (new, linear, partial_relu, relu, '
+                   'partial_leaky_relu, leaky_relu, partial_hard_tanh, hard_tanh, partial_hard_sigmoid, hard_sigmoid, argmax) accepts a layer exactly when it is '
+                   'dimension-compatible with the tracked shape, leaves the architecture unchanged on Err, queues exactly the stated layers, and keeps '
+                   'current_shape equal to the output width of the queued network (net_out). BOUNDED only (bc arch): extract_range splits compose to the whole, '
+                   'accepted architectures distill without panic, read_layers round trips (iterator adapters / file I/O are outside Verus).'),
+    'design_ref': 'DESIGN.md §4 C18',
+    'assumptions': ASSUME_COMMON + ASSUME_BC + [
+        'AffFunc is an opaque shim in this unit: indim()/outdim() return its (uninterpreted) dimensions',
+        'derive(Clone, Debug) on Layer / TensorShape are structural',
     ],
 })
 
